@@ -129,8 +129,10 @@ func (a *API) onRecordingDeleteSegment(ctx *gin.Context) {
 		return
 	}
 
+	// segment paths are encoded by using the local time zone,
+	// regardless of the time zone in which the request is expressed.
 	segmentPath := recordstore.Path{
-		Start: start,
+		Start: start.Local(),
 	}.Encode(pathFormat)
 
 	segmentPath, err = absolutePathInside(commonPath, segmentPath)
